@@ -102,7 +102,7 @@ def _top_cache(world, term):
     return None
 
 
-def judge_failure(obj, got, world, ref_out, o):
+def judge_failure(obj, got, world, ref_out, o, plausible=None):
     """Shape of one failing evaluation. Returns description or None."""
     from labrea.exceptions import EvaluationError, KeyNotFoundError
 
@@ -120,11 +120,11 @@ def judge_failure(obj, got, world, ref_out, o):
         if not knf:
             return ("missing-option-not-reported", f"reference: option {ref_out.key!r} is missing; cause chain: {[type(x).__name__ for x in chain]}")
         key = knf[-1].key
-        if key != ref_out.key and exists(o, key):
-            return ("wrong-missing-key", f"names {key!r} which is present; reference says {ref_out.key!r} is missing")
+        if key != ref_out.key and (exists(o, key) or (plausible is not None and key not in plausible)):
+            return ("wrong-missing-key", f"names {key!r}; reference says {ref_out.key!r} is missing (keys the term can read: {sorted(plausible or [])})")
         return None
     if not ref_out.ok and ref_out.kind == "user":
-        if not injected and knf and not exists(o, knf[-1].key):
+        if not injected and knf and not exists(o, knf[-1].key) and (plausible is None or knf[-1].key in plausible):
             # the evaluation has two reasons to fail (a raising callable and an absent option, found
             # first by the key inspection that precedes the body): either may be reported
             return None
@@ -138,6 +138,9 @@ def check_system(label, term, spec, res, tier, excs=EXCS, do_b=True):
     fails = []
     reported = set()
     dicts = cat.dictionaries(spec)
+    from ..terms import mentioned_keys
+
+    plausible = set(mentioned_keys(term)) | {k for k, _ in spec} | {"B", "C"}
 
     def fail(kind, hist, d, faults):
         key = (kind,)
@@ -169,7 +172,7 @@ def check_system(label, term, spec, res, tier, excs=EXCS, do_b=True):
             res["transitions"] += 1
             if not got.ok:
                 res["failing"] += 1
-                v = judge_failure(obj, got, w, refs[j], o)
+                v = judge_failure(obj, got, w, refs[j], o, plausible)
                 if v:
                     fail(v[0], [o], v[1], faults)
                 topc = _top_cache(w, term)
@@ -186,7 +189,7 @@ def check_system(label, term, spec, res, tier, excs=EXCS, do_b=True):
         seen = set()
         for j in range(len(dicts)):
             k = CacheSystem.canon(firsts[j])
-            if faults and twin[j].ok:
+            if twin[j].ok:
                 # the property speaks about what a FAILED evaluation leaves behind; what a successful one
                 # leaves behind is C01's subject (and, with raising bodies, the recorded Coalesce.keys finding)
                 continue
@@ -201,7 +204,7 @@ def check_system(label, term, spec, res, tier, excs=EXCS, do_b=True):
                 res["transitions"] += 1
                 if not got.ok:
                     res["failing"] += 1
-                    v = judge_failure(obj, got, w, refs[j2], o2)
+                    v = judge_failure(obj, got, w, refs[j2], o2, plausible)
                     if v:
                         fail(v[0], [dicts[j], o2], v[1], faults)
                 d = same_obs(got, twin[j2], strict_kind=False)
